@@ -377,7 +377,28 @@ def make_session_check(pid, nq, nt, extra=None):
     return chk
 
 
+def client_sent_only(line):
+    if " => " not in line:
+        return line
+    evs, res = line.split(" => ", 1)
+    return ",".join(e for e in evs.split(",") if e.startswith("sent")) + " => " + res
+
+
+def client_timing_extra(ctx, facts):
+    rc, rep, out, err = run_harness(["client", "-seed", str(ctx.seed), "-n", "3", "-dir", os.path.join(core.WORK, "client-timing-%d" % os.getpid())], timeout=600)
+    import shutil
+    shutil.rmtree(os.path.join(core.WORK, "client-timing-%d" % os.getpid()), ignore_errors=True)
+    if rep is None:
+        ctx.violation("client-timing-crash", {"what": "client suite crashed", "stderr": tail(err)}, found_input=False)
+        return
+    ctx.cov["client_timing_scenarios"] = rep.get("distribution", {}).get("client-timing", 0)
+    for v in rep["violations"]:
+        if v.get("kind") == "client-deadline":
+            ctx.violation("client-timing", v)
+
+
 def timing_extra(ctx, facts):
+    client_timing_extra(ctx, facts)
     rc, rep, out, err = run_harness(["timing", "-seed", str(ctx.seed)] + (["-long"] if ctx.tier == "thorough" else []), timeout=600)
     if rep is None:
         ctx.violation("timing-crash", {"what": "timing suite crashed", "stderr": tail(err)}, found_input=False)
@@ -390,7 +411,7 @@ def timing_extra(ctx, facts):
 
 
 
-def make_simple_check(pid, suite, args_quick, args_thorough, what, assume, exhaustive=False):
+def make_simple_check(pid, suite, args_quick, args_thorough, what, assume, exhaustive=False, project=None, kinds=None, extra=None):
     def chk(ctx):
         facts = prepare(ctx)
         broken = None
@@ -404,10 +425,12 @@ def make_simple_check(pid, suite, args_quick, args_thorough, what, assume, exhau
         rep, rows = run_suite_with_model(ctx, facts, suite, args_quick if ctx.tier == "quick" else args_thorough)
         bad = 0
         for g, cmd, impl, model in rows:
+            if project:
+                model = project(model)
             if impl != model:
                 bad += 1
                 if bad <= 4:
-                    ctx.violation("case", {"what": what, "case": cmd, "implementation": short(impl, 2000), "model": short(model, 2000)})
+                    ctx.violation("case", {"what": what, "case": short(cmd, 4000), "implementation": short(impl, 2000), "model": short(model, 2000)})
         if rep:
             ctx.cov["evaluations"] = len(rows)
             ctx.cov["distinct_nontrivial"] = rep["distinct_nontrivial"]
@@ -417,7 +440,10 @@ def make_simple_check(pid, suite, args_quick, args_thorough, what, assume, exhau
             ctx.cov["samples"] += rep.get("samples", [])
             ctx.cov["exhaustive"] = exhaustive
             for v in rep["violations"][:4]:
-                ctx.violation(v.get("kind", "oracle"), v)
+                if kinds is None or v.get("kind") in kinds:
+                    ctx.violation(v.get("kind", "oracle"), v)
+            if extra:
+                extra(ctx, facts)
         ctx.assumptions += assume
         if broken and not ctx.violations:
             ctx.violation("theorem", broken, found_input=False)
@@ -433,6 +459,15 @@ CHECKS = {"C18": check_C18, "C19": check_C19, "C02": check_C02, "C03": check_C03
                                    "behaviour of Serve on this sequence of Accept results differs from the model of the accept loop (sleeps, served connections, result)",
                                    ["Accept.v is a hand-written model of the accept loop of Server.Serve, tied to /repo by running every sequence over {T,C,P,S} up to the length bound against the real Serve (fault-injecting listener)",
                                     "time.Sleep, the Temporary() classification of net.Error and the select on the done channel are modelled; sleeps are observed through Server.Log and bracketed by the wall clock"], exhaustive=True),
+          "C14": make_simple_check("C14", "client", ["-n", "150"], ["-n", "3000"],
+                                   "result of Client.Send / DiscoverVersions (or the request bytes the peer received) differs from the model",
+                                   ["Client.v is a hand-written model of Client.Send / DiscoverVersions, tied to /repo by running the real Client over loopback TLS against a scripted peer (certificates generated in-process) and the extracted model on the same payload and reply bytes",
+                                    "crypto/tls transport, Connect's dialling are exercised, not modelled; deadlines set on the tls.Conn are not observable: the model's arm events are projected away and the three real-time client scenarios stand in"] + CODEC_ASSUME,
+                                   project=client_sent_only, kinds=("client-panic", "client-deadline")),
+          "C16": make_simple_check("C16", "tls", [], [],
+                                   "crypto/tls admitted / refused this peer differently from the acceptance specification applied to the regenerated default configuration",
+                                   ["TLS.v specifies what crypto/tls does with MinVersion / ClientAuth / InsecureSkipVerify (15 lines); crypto/tls and crypto/x509 are NOT verified: the specification is validated on every run against the real library over the entire peer space of the property (46 peers) on loopback",
+                                    "translator transcribes the assignments of DefaultServerTLSConfig / DefaultClientTLSConfig; any statement it does not understand makes the configuration 'not understood' and the theorem fail"], exhaustive=True),
           "C20": make_simple_check("C20", "discover", ["-sup", "2", "-offer", "3"], ["-sup", "3", "-offer", "4"],
                                    "reply of the built-in Discover Versions handler (or its aliasing with the configuration) differs from the model",
                                    ["Discover.v is a hand-written model of handleDiscoverVersions / Serve's defaulting with Go slices made explicit; tied to /repo by calling the real handler (through the verif build-tag hook) on every (supported, offer) pair up to the length bounds and inspecting the reply for shared memory",
